@@ -694,6 +694,19 @@ def gvs_worker(sym, nd, kind, param, seed, use_lean):
             ind = tuple(mkix(cs, d) for cs, d in idx)
             try:
                 arr = ctor(ind, tot)
+                if h % 8 == 5:
+                    # an enumeration abandoned part way, and two enumerations advanced in lock-step, must not
+                    # influence any other enumeration (each call enumerates afresh)
+                    g0 = arr.gen_valid_sectors()
+                    next(g0, None)
+                    del g0
+                    pairs = list(zip(arr.gen_valid_sectors(), arr.gen_valid_sectors()))
+                    res.stat("gvs:interleaved")
+                    if any(a_ != b_ for a_, b_ in pairs) or sorted(a_ for a_, _ in pairs) != sb:
+                        res.viol(f"{sym} gen_valid_sectors: two enumerations advanced in lock-step interfere",
+                                 gvs_case(sym, clsname, idx, tot, [a_ for a_, _ in pairs], brute),
+                                 {f"sym:{sym}", "interleaved"}, size=(len(idx), sum(len(cs) for cs, _ in idx)))
+                        continue
                 real = list(arr.gen_valid_sectors())
             except Exception as e:  # noqa
                 res.viol(f"{sym} gen_valid_sectors raises {type(e).__name__}: {e}",
@@ -733,8 +746,12 @@ def gvs_worker(sym, nd, kind, param, seed, use_lean):
                     kw = {} if clsname.startswith(sym) else {"symmetry": sym}
                     if "Fermionic" in clsname and sr.get_symmetry(sym).parity(tot):
                         kw["oddpos"] = 1
-                    x = getattr(sr, clsname).from_fill_fn(lambda shape: np.zeros(shape), ind, tot, **kw)
+                    # the constructors accept any iterable of indices
+                    how = [tuple, list, iter, lambda t: (ix for ix in t)][(h // 32) % 4]
+                    x = getattr(sr, clsname).from_fill_fn(lambda shape: np.zeros(shape), how(ind), tot, **kw)
                     keys = sorted(x.blocks)
+                    if x.ndim != len(ind):
+                        keys = f"array with {x.ndim} indices built from {len(ind)} indices given as {type(how(ind)).__name__}"
                 except Exception as e:  # noqa
                     keys = f"{type(e).__name__}: {e}"
                 res.stat("from_fill_fn_checked")
